@@ -389,9 +389,41 @@ func c02Pipes(c *Case) {
 	}
 }
 
+// c02ManyFiles: "for each file in the order given", for more files than the process may hold open at once
+func c02ManyFiles(c *Case) {
+	dir := filepath.Join(c.env.Scratch, "c02m")
+	os.MkdirAll(dir, 0o755)
+	defer os.RemoveAll(dir)
+	var names []string
+	var want strings.Builder
+	want.WriteString("begin\n")
+	for i := 1; i <= 90; i++ {
+		n := fmt.Sprintf("f%03d.json", i)
+		os.WriteFile(filepath.Join(dir, n), []byte(fmt.Sprintf("[%d, %d]\n{\"k\": %d}", i, -i, i)), 0o644)
+		names = append(names, n)
+		fmt.Fprintf(&want, "BF %s\nP %d\nP %d\nEF %s\nBF %s\nP {\"k\": %d}\nEF %s\n", n, i, -i, n, n, i, n)
+	}
+	want.WriteString("end 270\n")
+	prog := "BEGIN { print 'begin' } BEGINFILE { print 'BF', $file } { print 'P', $; n++ } ENDFILE { print 'EF', $file } END { print 'end', n }"
+	sh := "ulimit -n 32 || exit 97; exec \"$0\" \"$@\""
+	r := RunCli("/bin/sh", append([]string{"-c", sh, c.env.Jqawk, "--", prog}, names...), nil, dir, 120*time.Second)
+	if r.TimedOut || r.Exit == 97 {
+		c.Inconclusive("descriptor-limit-not-applied")
+		return
+	}
+	c.NonTrivial("many-files")
+	c.Count("runs_with_more_files_than_descriptors")
+	if f := cliFault(r); f != "" || r.Exit != 0 || string(r.Stdout) != want.String() {
+		c.Violation(fmt.Sprintf("90 files of two values each under a limit of 32 open descriptors: exit %d, %s, stderr %q %s", r.Exit, diffAt(want.String(), string(r.Stdout)), clip(string(r.Stderr), 120), f), nil, map[string]any{"program": prog})
+	} else {
+		c.Held()
+	}
+}
+
 func c02Run(c *Case) {
 	if c.Idx == 0 {
 		c02Pipes(c)
+		c02ManyFiles(c)
 	}
 	var cfg *c02Config
 	var key string
